@@ -79,7 +79,8 @@ class Prop(PropBase):
                 kw["s"] = (shape[-2] + 1, shape[-1] - 1) if shape[-1] > 2 else None
                 if kw["s"] is None:
                     kw.pop("s")
-            kw["axes"] = axes
+            if not (rank == 3 and case["axis"] % 2 == 0):     # rank 3 with default axes separates fft2 from fftn
+                kw["axes"] = axes
         elif name.endswith("n"):
             axes = tuple(range(rank)) if rank < 3 else (0, 2)
             kw["axes"] = axes
@@ -92,7 +93,7 @@ class Prop(PropBase):
         ref_np = getattr(np.fft, name)(np.asarray(x, dtype=np.complex128 if np.iscomplexobj(x) else np.float64), **kw)
         ref_sp = getattr(scipy.fft, name)(x, **kw)
         if case["dask"]:
-            tr = set(a % rank for a in (kw.get("axes") or (kw["axis"],)))
+            tr = set(a % rank for a in (kw.get("axes") or ((kw["axis"],) if "axis" in kw else (-2, -1))))
             chunks = tuple(-1 if i in tr else 1 for i in range(rank))
             xin = self.da.from_array(x, chunks=chunks)
         else:
